@@ -26,7 +26,7 @@ def select_hpv_model(method):
             raise ValueError("Must provide hpv_status.")
 
         _model = self.hpv if hpv_status else self.nohpv
-        return method(_model, *args, **kwargs)
+        return method(self, _model, *args, **kwargs)
 
     return wrapper
 
